@@ -158,6 +158,8 @@ class DnsRecordDnskey(ParsableBase, Serializable):
         for param_name in ('q', 'p', 'g', 'y'):
             if key_parser[param_name] == 0:
                 raise InvalidValue(key_parser[param_name], cls, param_name)
+        if (key_parser['p'].bit_length() + 63) // 64 * 8 != mpint_length:  # T does not match the size of the prime
+            raise InvalidValue(key_parser['t'], cls, 't')
 
         return PublicKey.from_params(PublicKeyParamsDsa(
             prime=key_parser['p'],
@@ -239,7 +241,7 @@ class DnsRecordDnskey(ParsableBase, Serializable):
     @staticmethod
     def _compose_public_key_dss(key_composer, key):
         key_params = key.params
-        key_size = key.key_size // 8
+        key_size = (key.key_size + 63) // 64 * 8
 
         key_composer.compose_numeric((key_size - 64) // 8, 1)
         key_composer.compose_mpint(key_params.order, 20)
